@@ -523,7 +523,15 @@ class NAryFunctionRelation(AbstractBaseRelation, SimpleRepr):
             # build a mapping from the function arguments to the name of the
             # variables of the relation
             var_list = func_args(f)
-            if var_list:
+            if (
+                var_list
+                and hasattr(f, "variable_names")
+                and set(var_list) == {v.name for v in self._variables}
+            ):
+                # An expression has no positional arguments: when it uses the
+                # names of the variables, map them by name.
+                self._var_mapping = {v.name: v.name for v in self._variables}
+            elif var_list:
                 for i, var_name in enumerate(var_list):
                     self._var_mapping[self._variables[i].name] = var_name
             else:
